@@ -1,18 +1,30 @@
 /-
 C03 — the COMMITTED discharge table of the nondeterminism inventory.
 
-`Gen/Nondet.lean` is regenerated from the source tree on every run (harness/extract/nondet.py).  This file is written by
-hand: it names, for every site of the inventory, WHY the site cannot make two runs differ.  `Discharge.Justified` maps
-each reason to the statement of the lemma that carries it (proved below from Lemmas/Noninterf*.lean), or to `True` for the
-reasons that are established by reading the code only (`Discharge.byReading`; they are counted separately in the
-evidence and exercised by the cross-process rig).  `Props/C03.lean` proves `Gen.Nondet.sites = table.map (·.1)`, so a
-site that is new, moved, renamed or gone is an undischarged obligation until this table is edited — deliberately, after
-looking at the new site (python -m harness.extract.nondet --skeleton prints the current sites).
+`Gen/Nondet.lean` is regenerated from the source tree on every run (harness/extract/nondet.py): the list of SITES and, per
+site, a FACT the extractor established mechanically (generator family and evaluation time of a draw, constant argument of
+`secrets.token_urlsafe`, the sinks a clock reading flows to, the keyword a set display is passed as, the module being
+outside the import closure of the runtime, the iteration sites of a declared set name, int-valued elements, `hash()`
+being the body of `__hash__`).  This file is written by hand: it names, for every site, WHY the site cannot make two runs
+differ.  Three bases (`Discharge.basis`):
+
+  * `lemma`       the reason is a statement about the model, proved below (`Discharge.Justified`);
+  * `mechanical`  the reason has a premise ABOUT THE CODE that is a Gen fact (`Discharge.supportedBy`, checked by
+                  `C03_facts_support_discharges` in Props/C03.lean) plus a lemma for the KIND of discharge;
+  * `trusted`     as `mechanical`, but the conclusion additionally rests on a runtime fact outside this development (CPython
+                  hashes an int to itself; pydantic only tests membership in `exclude=`; Python calls `__hash__` only to place
+                  a key); those are exercised by the probe / cross-process rigs.
+
+`Props/C03.lean` proves `Gen.Nondet.sites = table.map (·.1)`, so a site that is new, moved, renamed or gone is an undischarged
+obligation until this table is edited — deliberately, after looking at the new site
+(python -m harness.extract.nondet --skeleton prints the current sites).
 -/
 import PrimaiteModel.Gen.Nondet
+import PrimaiteModel.Gen.NondetSeeding
 import PrimaiteModel.Lemmas.Noninterf
 import PrimaiteModel.Lemmas.NoninterfSites
 import PrimaiteModel.Lemmas.NoninterfTopo
+import PrimaiteModel.Props.C10
 
 namespace Primaite.Noninterf
 open Primaite.Gen.Nondet
@@ -20,30 +32,34 @@ open Primaite.Gen.Nondet
 inductive Discharge
   /-- uuid4 string / generated MAC address: an opaque token, used as dictionary key and compared for equality, printed
   with a fixed width. Lemma: the interpreter answers `idEq` identically under every injective naming, and the canonical
-  trajectory is invariant under injective renaming. -/
+  trajectory is invariant under injective renaming. (That no identifier is ORDERED or SLICED is the absence of `idOrder` /
+  unexplained `idText` sites in the inventory.) -/
   | idToken
-  /-- `secrets.token_urlsafe(24)`: always 32 characters, carried as an opaque ICMP payload, never inspected (by reading). -/
+  /-- `secrets.token_urlsafe(n)` with a CONSTANT n (Gen fact): the text has the fixed width ⌈4n/3⌉, so it cannot make two
+  frames differ in size; it is carried as an opaque ICMP payload. -/
   | fixedLenSecret
   /-- an unseeded reading whose TEXT LENGTH reaches `Frame.size` (clock stamp with/without microseconds; ICMP identifier of
   1..5 digits; NTP reply time): OPEN FINDING F-9. The theorems carry the hypothesis `StampLenAgree`. -/
   | readingLenF9
-  /-- clock reading used for a log/session directory name or stored in a connection record that only `show()` prints (by reading). -/
+  /-- a clock reading whose value flows only into a directory name, a `show()` table or a log call (Gen fact: the sinks of
+  a forward data-flow); it never reaches a frame size. -/
   | clockNotRead
-  /-- a draw from Python's / numpy's global generator or from a generator derived from it: the stream is a function of the
-  seed (`Fixed.next`, `Fixed.seed`), it is not part of `ρ`. -/
+  /-- a draw, made when a function is CALLED (not at import), from a generator family that `set_random_seed` seeds, or from
+  a Generator derived from such a draw (Gen facts): the stream is a function of the seed, it is not part of `ρ`. -/
   | seededRng
-  /-- the seeding call itself -/
+  /-- the seeding call itself, with the argument `seed` (Gen fact) -/
   | seeding
-  /-- `np.random.default_rng()` without a seed: executed only when the configuration has no seed and asks for a generated
-  one — outside the property's hypothesis "same configured seed" (by reading `set_random_seed`). -/
+  /-- a draw from an unseeded generator inside `if generate_seed_value:` (Gen fact): executed only when the configuration
+  asks for a generated seed — outside the property's hypothesis "same configured seed"; with `generate_seed_value = False`
+  `set_random_seed` never seeds from entropy (lemma over the regenerated shape). -/
   | unseededByConfig
-  /-- `__hash__` from the uuid: network interfaces are only used as dictionary keys / in membership tests, no set of them is
-  iterated (by reading; dict iteration is insertion-ordered whatever the hash). -/
+  /-- `hash(self.uuid)` is the body of a `__hash__` method (Gen fact): Python uses it to place the object in a dict / set;
+  dict iteration is insertion-ordered, and every iteration of a set is an inventory site of its own. -/
   | hashNotIterated
-  /-- `hash(x)` called inside `try/except TypeError` only to test whether `x` is hashable; the value is discarded, the function
-  returns a `bool` that depends on the TYPE of `x` alone (by reading `simulator/core.py:_is_hashable`). -/
+  /-- `hash(x)` as an expression statement inside `try … except TypeError` (Gen fact `valueDiscarded`): the value is thrown away; only
+  whether the call raises — hashability, a property of the argument's TYPE, not of PYTHONHASHSEED — reaches the program -/
   | hashValueDiscarded
-  /-- package set-up scripts that copy example files; not reachable from an environment run (by reading). -/
+  /-- a module outside the import closure of session/environment.py, session/ray_envs.py and game/game.py (Gen fact) -/
   | offline
   /-- `for x in sorted(s)` -/
   | setSorted
@@ -55,48 +71,107 @@ inductive Discharge
   | setLengthOnly
   /-- a dict is built from the set and only read by key -/
   | setDictByKey
-  /-- the set is never written: always empty -/
+  /-- the set is never written (Gen fact `neverWritten`: no assignment, mutator call or constructor keyword of that
+  attribute name in the tree): always empty -/
   | setEmpty
-  /-- a set display with one element -/
+  /-- a set display with one constant element (Gen fact `singletonDisplay`) -/
   | setSingleton
-  /-- the set is handed to pydantic's `exclude=` : membership tests only (by reading) -/
+  /-- the set display is the `exclude=` keyword of pydantic's `model_dump` (Gen fact): membership tests only -/
   | setMembershipOnly
-  /-- a set of small `int`s (ports): CPython hashes an int to itself, so the iteration order is a function of the
-  inserted values and their order, not of PYTHONHASHSEED (TRUSTED CPython fact; checked by the cross-process rig) -/
+  /-- a set whose element annotation resolves to `int` (`Port`; Gen fact): CPython hashes an int to itself, so the
+  iteration order is a function of the inserted values and their order, not of PYTHONHASHSEED (TRUSTED CPython fact; checked
+  by the probe rig in three interpreters) -/
   | setIntHash
   /-- neighbour order of the reward-sharing graph in `topological_sort`: every dependencies-first order computes the same
-  rewards (lemma below); that the result IS dependencies-first for every neighbour order is C10's theorem -/
+  rewards (lemma below); the result IS dependencies-first for every neighbour order (C10_graph_order_irrelevant) -/
   | setTopo
-  /-- neighbour order in `graph_has_cycle`: the answer is "a cycle is reachable", whatever the visiting order (C10's
-  `hasCycle_iff`; here by reading) -/
+  /-- neighbour order in `graph_has_cycle`: two graphs with the same arcs are both cyclic or both acyclic
+  (C10_graph_order_irrelevant) -/
   | setCycleCheck
-  /-- declaration of a set-valued name; every iteration of it is a listed `setIter` site of its own -/
+  /-- declaration of a set-valued name; the Gen fact lists every iteration / escape of the name, and each of them is a site
+  with a discharge of its own (`C03_decl_uses_discharged`) -/
   | setDeclCovered
+  /-- the lower-cased text of a MAC address is only compared for equality with another address (Gen fact `cmpEqOnly`) -/
+  | idTextEqOnly
   deriving DecidableEq, Repr
 
-/-- Reasons that rest on reading the code / a trusted runtime fact, not on a lemma of this development. -/
-def Discharge.byReading : Discharge → Bool
-  | .fixedLenSecret | .clockNotRead | .unseededByConfig | .hashNotIterated | .hashValueDiscarded | .offline | .setMembershipOnly
-  | .setIntHash | .setCycleCheck | .setDeclCovered | .seeding => true
-  | _ => false
+inductive Basis | lemma | mechanical | trusted | openFinding
+  deriving DecidableEq, Repr
+
+def Discharge.basis : Discharge → Basis
+  | .readingLenF9 => .openFinding
+  | .fixedLenSecret | .clockNotRead | .seededRng | .seeding | .unseededByConfig | .offline | .setDeclCovered | .setEmpty
+  | .setSingleton | .hashValueDiscarded => .mechanical
+  | .hashNotIterated | .setMembershipOnly | .setIntHash | .idTextEqOnly => .trusted
+  | _ => .lemma
+
+/-- kept for the evidence: reasons that rest on anything but a lemma or a mechanical fact -/
+def Discharge.byReading (d : Discharge) : Bool := d.basis == .trusted
+
+/-- The premise about the CODE that a reason needs, as a test on the regenerated fact of its site. -/
+def Discharge.supportedBy : Discharge → Fact → Bool
+  | .fixedLenSecret, .constSecret n => tokenUrlsafeLen n == 32      -- the ICMP payload: 24 bytes, 32 characters
+  | .fixedLenSecret, _ => false
+  | .clockNotRead, .sinks l => l.all fun s => s == "path" || s == "show" || s == "log"
+  | .clockNotRead, _ => false
+  | .seededRng, .draw fam atCall guarded => atCall && !guarded && (fam == .py || fam == .np || fam == .derivedNp || fam == .torch)
+  | .seededRng, _ => false
+  | .seeding, .seedCall _ arg atCall => arg == "seed" && atCall
+  | .seeding, _ => false
+  | .unseededByConfig, .draw fam _ guarded => fam == .entropy && guarded
+  | .unseededByConfig, _ => false
+  | .hashNotIterated, .hashDunder _ => true
+  | .hashNotIterated, _ => false
+  | .hashValueDiscarded, .valueDiscarded => true
+  | .hashValueDiscarded, _ => false
+  | .offline, .offlineModule => true
+  | .offline, _ => false
+  | .setMembershipOnly, .kwarg callee kw => callee == "model_dump" && kw == "exclude"
+  | .setMembershipOnly, _ => false
+  | .setIntHash, .intSet _ => true
+  | .setIntHash, _ => false
+  | .setDeclCovered, .declUses _ => true
+  | .setDeclCovered, _ => false
+  | .idTextEqOnly, .cmpEqOnly => true
+  | .idTextEqOnly, _ => false
+  | .setSingleton, .singletonDisplay => true
+  | .setSingleton, _ => false
+  | .setEmpty, .neverWritten => true
+  | .setEmpty, .declUses _ => true      -- the declaration; its iteration carries `neverWritten`
+  | .setEmpty, _ => false
+  | _, _ => true
 
 /-- The statement behind each reason. -/
 def Discharge.Justified : Discharge → Prop
   | .idToken =>
     (∀ (ι ι' : Type) [DecidableEq ι] [DecidableEq ι'] (g : Fixed) (ρ : Rho ι) (ρ' : Rho ι'), ρ.Valid → ρ'.Valid →
-      ∀ (a b : Nat) (k : Bool → Prog Nat) (w : World), (∀ r, (k r).Safe (StampLenAgree g ρ ρ')) →
+      ∀ (a b : Nat) (k : Bool → Prog Nat) (w : World), (∀ r, (k r).Safe g.seeds (StampLenAgree g ρ ρ')) →
         interp g ρ (.idEq a b k) w = interp g ρ' (.idEq a b k) w) ∧
     (∀ (f : Nat → Nat), (∀ a b, f a = f b → a = b) → ∀ ls : List (List (Tok Nat)),
       canonRun [] (ls.map fun l => l.map (Tok.map f)) = canonRun [] ls)
   | .readingLenF9 =>
     ∀ (ι ι' : Type) [DecidableEq ι] [DecidableEq ι'] (g : Fixed) (ρ : Rho ι) (ρ' : Rho ι'), ρ.Valid → ρ'.Valid →
       StampLenAgree g ρ ρ' → ∀ (base : Nat) (hs : List Nat) (k : Nat → Prog Nat) (w : World),
-        (∀ n, (k n).Safe (StampLenAgree g ρ ρ')) →
+        (∀ n, (k n).Safe g.seeds (StampLenAgree g ρ ρ')) →
         interp g ρ (.frameSize base hs k) w = interp g ρ' (.frameSize base hs k) w
+  | .fixedLenSecret =>
+    -- readings whose text has a fixed width satisfy the side condition whatever the environments
+    ∀ (g : Fixed) (width : Nat), (∀ t, g.textLen t = width) →
+      ∀ (ι ι' : Type) (ρ : Rho ι) (ρ' : Rho ι'), StampLenAgree g ρ ρ'
+  | .clockNotRead =>
+    -- a program that never sizes a frame from a reading does not depend on the clock at all
+    ∀ (ι ι' : Type) [DecidableEq ι] [DecidableEq ι'] (g : Fixed) (ρ : Rho ι) (ρ' : Rho ι'), ρ.Valid → ρ'.Valid →
+      ∀ (p : Prog Nat) (w : World), p.Safe g.seeds False → interp g ρ p w = interp g ρ' p w
   | .seededRng =>
     ∀ (ι ι' : Type) [DecidableEq ι] [DecidableEq ι'] (g : Fixed) (ρ : Rho ι) (ρ' : Rho ι'), ρ.Valid → ρ'.Valid →
-      ∀ (n : Nat) (k : Nat → Prog Nat) (w : World), (∀ r, (k r).Safe (StampLenAgree g ρ ρ')) →
-        interp g ρ (.rand n k) w = interp g ρ' (.rand n k) w
+      ∀ (f : Fam) (n : Nat) (k : Nat → Prog Nat) (w : World), g.seeds f = true → (∀ r, (k r).Safe g.seeds (StampLenAgree g ρ ρ')) →
+        interp g ρ (.rand f n k) w = interp g ρ' (.rand f n k) w
+  | .seeding =>
+    -- after `set_random_seed(s)` the generators do not depend on where they were
+    ∀ (g : Fixed) (s : Nat) (w w' : World), resetRng g (some s) w = resetRng g (some s) w'
+  | .unseededByConfig =>
+    -- without `generate_seed_value`, neither `set_random_seed` nor `reset` ever seeds from entropy
+    ∀ x : Option Int, codeShape.setRandomSeed x false ≠ .fromEntropy ∧ codeShape.resetAct x false ≠ .fromEntropy
   | .setSorted => Invariant sortedIter
   | .setToSet => ∀ lookup, Invariant (listenPorts lookup)
   | .setNoEffect => Invariant noEffect
@@ -105,9 +180,25 @@ def Discharge.Justified : Discharge → Prop
   | .setEmpty => ∀ (ι : Type) (ρ : Rho ι), ρ.Valid → ∀ (c : List Nat → List Nat) (k : Nat), c (ρ.perm k []) = c []
   | .setSingleton => ∀ (ι : Type) (ρ : Rho ι), ρ.Valid → ∀ (c : List Nat → List Nat) (k a : Nat), c (ρ.perm k [a]) = c [a]
   | .setTopo =>
-    ∀ (g : Graph) (own cur : Nat → Int) (l₁ l₂ : List Nat), l₁.Nodup → l₂.Nodup → l₁.Perm l₂ →
-      DepsFirstFrom g [] l₁ → DepsFirstFrom g [] l₂ → evalRewards g own l₁ cur = evalRewards g own l₂ cur
+    (∀ (g : Graph) (own cur : Nat → Int) (l₁ l₂ : List Nat), l₁.Nodup → l₂.Nodup → l₁.Perm l₂ →
+      DepsFirstFrom g [] l₁ → DepsFirstFrom g [] l₂ → evalRewards g own l₁ cur = evalRewards g own l₂ cur) ∧
+    (∀ (g g' : RewardGraph.Graph Name), (∀ u v, v ∈ RewardGraph.nbrs g u ↔ v ∈ RewardGraph.nbrs g' u) →
+      RewardGraph.hasCycle g = false → RewardGraph.DepsFirst g' (RewardGraph.topoSort g))
+  | .setCycleCheck =>
+    ∀ (g g' : RewardGraph.Graph Name), (∀ u v, v ∈ RewardGraph.nbrs g u ↔ v ∈ RewardGraph.nbrs g' u) →
+      RewardGraph.hasCycle g = RewardGraph.hasCycle g'
   | _ => True
+
+theorem setRandomSeed_no_entropy (x : Option Int) :
+    codeShape.setRandomSeed x false ≠ .fromEntropy ∧ codeShape.resetAct x false ≠ .fromEntropy := by
+  cases x with
+  | none => simp [codeShape, SeedShape.setRandomSeed, SeedShape.resetAct, SeedTest.eval]
+  | some n =>
+    by_cases h1 : n = -1
+    · subst h1; simp [codeShape, SeedShape.setRandomSeed, SeedShape.resetAct, SeedTest.eval]
+    · by_cases h2 : n < -1
+      · simp [codeShape, SeedShape.setRandomSeed, SeedShape.resetAct, SeedTest.eval, h1, h2]
+      · simp [codeShape, SeedShape.setRandomSeed, SeedShape.resetAct, SeedTest.eval, h1, h2]
 
 theorem Discharge.justified : ∀ d : Discharge, d.Justified := by
   intro d
@@ -121,9 +212,17 @@ theorem Discharge.justified : ∀ d : Discharge, d.Justified := by
   case readingLenF9 =>
     intro ι ι' _ _ g ρ ρ' hv hv' hl base hs k w hk
     exact interp_indep g hv hv' _ w ⟨.inr hl, hk⟩
+  case fixedLenSecret =>
+    intro g width hw ι ι' ρ ρ' k k'
+    rw [hw, hw]
+  case clockNotRead =>
+    intro ι ι' _ _ g ρ ρ' hv hv' p w hp
+    exact interp_indep g hv hv' p w (Prog.Safe.mono False.elim hp)
   case seededRng =>
-    intro ι ι' _ _ g ρ ρ' hv hv' n k w hk
-    exact interp_indep g hv hv' _ w hk
+    intro ι ι' _ _ g ρ ρ' hv hv' f n k w hf hk
+    exact interp_indep g hv hv' _ w ⟨hf, hk⟩
+  case seeding => intro g s w w'; rfl
+  case unseededByConfig => exact setRandomSeed_no_entropy
   case setSorted => exact sortedIter_invariant
   case setToSet => exact listenPorts_invariant
   case setNoEffect => exact noEffect_invariant
@@ -131,7 +230,9 @@ theorem Discharge.justified : ∀ d : Discharge, d.Justified := by
   case setDictByKey => exact dictByKey_invariant
   case setEmpty => exact fun ι ρ hv c k => empty_set_any_consumer hv c k
   case setSingleton => exact fun ι ρ hv c k a => singleton_set_any_consumer hv c k a
-  case setTopo => exact evalRewards_order_indep
+  case setTopo =>
+    exact ⟨evalRewards_order_indep, fun g g' h hb => (Reward.C10_graph_order_irrelevant g g' h).2 hb⟩
+  case setCycleCheck => exact fun g g' h => (Reward.C10_graph_order_irrelevant g g' h).1
 
 /-- site ↦ reason, in the order of the regenerated inventory -/
 def table : List (Site × Discharge) := [
@@ -145,6 +246,8 @@ def table : List (Site × Discharge) := [
   (⟨"game/agent/scripted_agents/probabilistic_agent.py", "ProbabilisticAgent.get_action", .rngMethod, "self.rng.choice(len(self.action_manager.action_map), p=self.probabilities)", 0⟩, .seededRng),
   (⟨"game/agent/scripted_agents/random_agent.py", "PeriodicAgent._set_next_execution_timestep", .pyRandom, "random.randint(-variance, variance)", 0⟩, .seededRng),
   (⟨"game/agent/scripted_agents/random_agent.py", "PeriodicAgent.start_node", .pyRandom, "random.choice(self.config.agent_settings.possible_start_nodes)", 0⟩, .seededRng),
+  (⟨"game/agent/scripted_agents/random_agent.py", "RandomAgent.get_action", .npRandom, "np.random.randint(0, 65535)", 0⟩, .seededRng),
+  (⟨"game/agent/scripted_agents/random_agent.py", "RandomAgent.get_action", .spaceSample, "space.sample()", 0⟩, .seededRng),
   (⟨"game/game.py", "PrimaiteGame.from_config._set_software_listen_on_ports", .setDecl, "software.listen_on_ports : set(listen_on_ports)", 0⟩, .setDeclCovered),
   (⟨"game/game.py", "PrimaiteGame.from_config._set_software_listen_on_ports", .setIter, "for <- set(software_cfg.get('options', {}).get('listen_on_ports', []))", 0⟩, .setToSet),
   (⟨"game/science.py", "graph_has_cycle", .setDecl, "parameter graph receives a container of sets", 0⟩, .setDeclCovered),
@@ -156,6 +259,7 @@ def table : List (Site × Discharge) := [
   (⟨"session/environment.py", "set_random_seed", .npRandom, "np.random.seed(seed)", 0⟩, .seeding),
   (⟨"session/environment.py", "set_random_seed", .pyRandom, "random.seed(seed)", 0⟩, .seeding),
   (⟨"session/environment.py", "set_random_seed", .rngMethod, "rng.integers(low=0, high=2 ** 32 - 1)", 0⟩, .unseededByConfig),
+  (⟨"session/environment.py", "set_random_seed", .torchRandom, "th.manual_seed(seed)", 0⟩, .seeding),
   (⟨"session/episode_schedule.py", "build_scheduler", .setIter, "dictcomp <- files_to_load", 0⟩, .setDictByKey),
   (⟨"session/ray_envs.py", "PrimaiteRayMARLEnv.__init__", .setDecl, "self.terminateds : set()", 0⟩, .setLengthOnly),
   (⟨"session/ray_envs.py", "PrimaiteRayMARLEnv.__init__", .setDecl, "self.truncateds : set()", 0⟩, .setLengthOnly),
@@ -172,7 +276,9 @@ def table : List (Site × Discharge) := [
   (⟨"simulator/network/hardware/nodes/network/router.py", "ACLRule.__str__", .setEscape, "call model_dump <- {'uuid', 'request_manager'}", 0⟩, .setMembershipOnly),
   (⟨"simulator/network/hardware/nodes/network/router.py", "RouteTable.add_route", .setIter, "for <- {address, subnet_mask, next_hop_ip_address}", 0⟩, .setNoEffect),
   (⟨"simulator/network/hardware/nodes/network/router.py", "RouterICMP._process_icmp_echo_request", .secrets, "secrets.token_urlsafe(int(32 / 1.3))", 0⟩, .fixedLenSecret),
+  (⟨"simulator/network/hardware/nodes/network/switch.py", "Switch.receive_frame", .idText, "dst_mac.lower()", 0⟩, .idTextEqOnly),
   (⟨"simulator/network/protocols/icmp.py", "ICMPPacket.__init__", .secrets, "secrets.randbits(16)", 0⟩, .readingLenF9),
+  (⟨"simulator/network/transmission/data_link_layer.py", "Frame.is_broadcast", .idText, "self.ethernet.dst_mac_addr.lower()", 0⟩, .idTextEqOnly),
   (⟨"simulator/network/transmission/data_link_layer.py", "Frame.set_received_timestamp", .clock, "datetime.now()", 0⟩, .readingLenF9),
   (⟨"simulator/network/transmission/data_link_layer.py", "Frame.set_sent_timestamp", .clock, "datetime.now()", 0⟩, .readingLenF9),
   (⟨"simulator/system/applications/application.py", "Application", .setDecl, "groups : Set[str]", 0⟩, .setEmpty),
